@@ -18,6 +18,7 @@ EXPLANATION = (
     "each walk model passes is the tabled provider (own flow / w_max, max reachable value, |E||V|); the variable bound of x and the big-M of "
     "row 22a are that same cap (formulation table); (R6) the options dict is never written; (R7) under every "
     "optimisation setting an edge inside an SCC is only bounded from below by its multiplicity in a safe sequence (the bounds route equals the "
+    "(R8) the integer*continuous product helper every walk model uses is exact up to its bound (bit count proof and rows of C12.R2).  "
     "constraint route), so walks may still repeat a cycle as often as a minimum decomposition needs.  NOT decided: minimality, completeness, validity of the condensation width as a bound, "
     "scale invariance for non-integer weights."
 )
